@@ -475,8 +475,28 @@ fn judge_group(
         }
         Out::Ok(s) => {
             if facts.unkeyable {
-                // documentation: keys are "stringified"; how floats / containers group is not pinned
-                acc.count("group_by-ok-unkeyable(unjudged)", 1);
+                // documentation: keys are "stringified"; how floats / containers group is not pinned,
+                // but the groups still partition the elements whose attribute is present and not none:
+                // none of them may be lost (seeded change C16-10 skipped unkeyable attributes silently)
+                acc.count("group_by-ok-unkeyable(membership-only)", 1);
+                if let Some(obs) = parse_groups(s) {
+                    let mut got: Vec<String> = obs.iter().flat_map(|g| g.1.iter().cloned()).collect();
+                    let mut want: Vec<String> = keys
+                        .iter()
+                        .enumerate()
+                        .filter(|(_, k)| matches!(k, Some(k) if **k != V::None))
+                        .map(|(p, _)| member_tok(p))
+                        .collect();
+                    got.sort();
+                    want.sort();
+                    if got != want {
+                        acc.violation(
+                            "group_by-partition",
+                            format!("the groups hold the members {got:?}, the elements whose attribute is present and not none are {want:?}; output {s:?}"),
+                            case,
+                        );
+                    }
+                }
             } else {
                 if facts.missing {
                     acc.count("group_by-ok-missing-dropped", 1);
